@@ -3,7 +3,8 @@
    recorded from the real brew() through a recording Model subclass / estimator.
 
    trace = [tid, folds, nfiles, capped, cap, thr: <<num, den>>  (test_fdr),
-            rows:  <<[id, file, spec, tgt]>>                        -- spec is local to its file
+            rows:  <<[id, file, spec, tgt, hgrp]>>                  -- spec is local to its file; hgrp numbers the values of the
+                                                                       first two spectrum-key columns (what _split hashes)
             trainsets: <<<<ids>>>>                                  -- what brew handed to the training-set constructor
             fits:  <<[model, train: <<ids>>]>>                      -- Model.fit(train set): model = its fold number
             trained: BOOLEAN                                        -- every returned fold model is trained
@@ -85,9 +86,12 @@ Check(R) ==     \* R: id -> row record, bound once
                     /\ ((T.raised_type = "RuntimeError" /\ Len(T.preds) > 0) => SomeFoldWithoutAccepted)]]
 RowsF == [x \in Ids |-> T.rows[CHOOSE i \in 1..NR : T.rows[i].id = x]]
 \* domain boundary B-02 of the fold construction: no spectrum has more PSMs than (rows of its file) \div folds
+\* The fold construction hashes only the first two spectrum-key columns (hgrp): spectra that agree on them are kept together,
+\* so the bound applies to these (possibly coarser) groups as well.
 InDomain(R) == \A f \in Files : LET F == {x \in Ids : R[x].file = f} IN
                   /\ Cardinality(F) >= T.folds
                   /\ \A x \in F : Cardinality({y \in F : R[y].spec = R[x].spec}) <= Cardinality(F) \div T.folds
+                  /\ \A x \in F : Cardinality({y \in F : R[y].hgrp = R[x].hgrp}) <= Cardinality(F) \div T.folds
 \* <<failed clauses, number of (model, file) folds inside C11's domain>>
 Result == LET R == RowsF IN IF ~InDomain(R) THEN <<{}, -1>>       \* -1: outside the domain, accepted vacuously
           ELSE LET K == Check(R)  C == K.clauses IN <<{c \in DOMAIN C : ~C[c]}, IF T.calibrated /\ T.raised = "" THEN K.ndom ELSE 0>>
